@@ -52,6 +52,7 @@ type flowResult struct {
 	partial  bool
 	crashed  bool // the first run was interrupted at the requested point
 	unzipped int  // metadata files restored from the --zip archive for the monitors
+	route    vmon.RouteStats
 	vdr      vmon.VdrStats
 }
 
@@ -197,6 +198,7 @@ func runFlowCase(c *vf.Ctx, fc *flowCase) *flowResult {
 		res.obs = vmon.Collect(cs, vmon.StageCallPaths(p))
 		res.partial = true
 		res.model, res.report = vmon.Analyze(res.obs, p)
+		res.route = vmon.CheckJournalRouting(cs.Trace(), res.report, fc.Crash == "" && len(fc.Rules) == 0)
 		return res
 	}
 	nz, zerr := cs.UnzipMetadata() // --zip runs: the monitors read the archived metadata
@@ -204,6 +206,7 @@ func runFlowCase(c *vf.Ctx, fc *flowCase) *flowResult {
 	res.obs = vmon.Collect(cs, vmon.StageCallPaths(p))
 	if res.run.Exit == 0 {
 		res.model, res.report = vmon.Analyze(res.obs, p)
+		res.route = vmon.CheckJournalRouting(cs.Trace(), res.report, fc.Crash == "" && len(fc.Rules) == 0)
 		if zerr != nil {
 			res.report.Findings = append(res.report.Findings, vmon.Finding{Prop: "C13", Sig: "metadata-archive-unreadable",
 				What: "the metadata archive written on completion (--zip) cannot be read back: " + zerr.Error()})
@@ -381,6 +384,9 @@ func flowCampaign(c *vf.Ctx, prop string, cases []*flowCase, nontrivial func(*fl
 		c.Count("disabled_calls_modelled", int64(res.report.Disabled))
 		c.Count("chunk_and_join_arg_checks", int64(res.report.ChunkChecks))
 		c.Count("top_level_leaves_checked", int64(res.report.TopLeaves))
+		c.Count("journal_files_routing_checked", int64(res.route.Routed))
+		c.Count("journal_files_of_superseded_attempts", int64(res.route.StaleAttempt))
+		c.Count("journal_files_dropped_by_mrp", int64(res.route.Unrouted))
 		c.Count("vdr_removals_observed", int64(res.vdr.Removals))
 		c.Count("vdr_reports_checked", int64(res.vdr.Reports))
 		c.Count("vdr_listed_paths_checked", int64(res.vdr.ListedPaths))
